@@ -13,6 +13,8 @@ ID = "C11"
 ASSUMPTIONS = [
     "durations: integers >= 0 without filter, >= 1 with the dominated-operations filter installed; feature arrays are exact python "
     "objects behind the numpy facade (float32 rounding, exact below 2**24, is outside the claim)",
+    "second-run mode: the observers are created on a fresh dispatcher after an earlier complete history (with its own observers) was played "
+    "on the same instance object",
     "every observer is subscribed from the start, with all its supported feature types; values are demanded only for entities with work "
     "left: operations that are not completed (for IsReady/EarliestStartTime/Duration/PositionInJob: not scheduled), jobs and machines with "
     "an unscheduled operation; machine-level counts only on non-flexible structures",
@@ -50,6 +52,7 @@ def subspaces(tier):
     out += C.structure_subspaces(s3, 2, True, only_flexible=True, mode="observers", filter="none")
     out += C.structure_subspaces(s3 + [(2, 2)], 2, False, mode="observers", filter="dominated")
     out += C.structure_subspaces(D.shapes(2, 2), 2, True, only_flexible=True, mode="observers", filter="dominated")
+    out += C.structure_subspaces(D.shapes(2, 3) + [(2, 2)], 2, False, canonical=True, mode="second-run", filter="none")
     for sh, ms in [([2, 1], [[0], [1], [1]]), ([1, 1], [[0], [0]]), ([2, 2], [[0], [1], [1], [0]]), ([1, 1], [[0, 1], [1]])]:
         for a, b in itertools.permutations(OBS, 2):
             out.append(dict(shape=sh, machines=ms, mode="composite", parts=[a, b], filter="none"))
@@ -63,7 +66,7 @@ def subspaces(tier):
 
 
 def cost(sp):
-    return C.cost(sp) * (1 if sp["mode"] == "composite" else 4)
+    return C.cost(sp) * (1 if sp["mode"] == "composite" else 4) * (C.cost(sp) if sp["mode"] == "second-run" else 1)
 
 
 def feat(o, ft):
@@ -275,6 +278,15 @@ def harness(eng, sp):
     filtered = sp["filter"] != "none"
     inst, desc = D.build_instance(eng, sp["shape"], sp["machines"], dmin=1 if filtered else 0)
     filt = C.make_filter(sp["filter"]) if filtered else None
+    if sp["mode"] == "second-run":
+        # an earlier complete history with all observers on ANOTHER dispatcher over the same instance object
+        d0 = Dispatcher(inst)
+        build_observers(eng, d0)
+        s0 = Spec(desc)
+        for _ in range(desc.n_ops):
+            op, m = D.choose_dispatch(eng, desc, s0)
+            d0.dispatch(D.op_by_id(inst, op), m)
+            s0.apply(op, m)
     disp = Dispatcher(inst, ready_operations_filter=filt)
     spec = Spec(desc)
     if sp["mode"] == "composite":
